@@ -15,7 +15,8 @@ RULE = ('seeded histories of on/once/off(name)/off(name,cb)/emit over 2-3 names 
         'hotxlfp.Parser. Final subscriptions are observed through two probe emits per name. Non-trivial = at least one '
         'callback was called; distinct = distinct (bodies, ops).')
 TRUSTED = ['callbacks are modelled as scripts of emitter operations; callbacks that raise are not modelled',
-           'Python function identity (==) of callbacks is modelled by callback ids']
+           'equality (==) of callbacks is modelled by callback ids: plain functions, and bound methods of host objects '
+           'fetched anew for every on/once/off (equal, not identical)']
 ASSUMPTIONS = ['a once-listener reached first by a nested emit receives that emit (it is called exactly once)']
 EXHAUSTIVE = {'quick': False, 'thorough': False}
 
@@ -59,13 +60,13 @@ def run_real(c, make):
     def do(op):
         k = op[0]
         if k == 'on':
-            e.on('n%d' % op[1], cbs[op[2]], {'c': op[3]})
+            e.on('n%d' % op[1], get(op[2]), {'c': op[3]})
         elif k == 'once':
-            e.once('n%d' % op[1], cbs[op[2]], {'c': op[3]})
+            e.once('n%d' % op[1], get(op[2]), {'c': op[3]})
         elif k == 'off':
             e.off('n%d' % op[1])
         elif k == 'offcb':
-            e.off('n%d' % op[1], cbs[op[2]])
+            e.off('n%d' % op[1], get(op[2]))
         elif k == 'emit':
             e.emit('n%d' % op[1], op[1], op[2])
 
@@ -85,6 +86,19 @@ def run_real(c, make):
         return cb
     cbody = c['bodies']
     cbs = [mk(i) for i in range(len(cbody))]
+    if c.get('flavour') == 'bound':
+        # the callbacks are bound methods of host objects: every `host.hook` is a new object that compares equal
+        # to the one subscribed earlier (the way a host normally writes parser.off(name, self.hook))
+        class Host(object):
+            def __init__(self, f):
+                self.f = f
+
+            def hook(self, name, arg, c=None):
+                return self.f(name, arg, c)
+        hosts = [Host(f) for f in cbs]
+        get = lambda i: hosts[i].hook
+    else:
+        get = lambda i: cbs[i]
     for op in c['ops']:
         do(op)
     main = list(log)
@@ -207,6 +221,7 @@ def gen_case(rng, maxlen):
         bodies.append([gen_op(rng, names, ncb) for _ in range(k)])
     ops = [gen_op(rng, names, ncb) for _ in range(rng.randrange(1, maxlen + 1))]
     return {'kind': 'script', 'on': rng.choice(['emitter', 'emitter', 'parser']), 'fuel': fuel,
+            'flavour': rng.choice(['function', 'function', 'bound']),
             'names': names, 'bodies': bodies, 'ops': ops}
 
 
@@ -225,7 +240,7 @@ CORE = [
 
 def cases(rng, ctx):
     thorough = ctx['tier'] == 'thorough'
-    out = [dict(c) for c in CORE]
+    out = [dict(c) for c in CORE] + [dict(c, flavour='bound') for c in CORE]
     n = (20000 if thorough else 1500) * ctx['scale']
     maxlen = 60 if thorough else 30
     for _ in range(n):
